@@ -220,7 +220,7 @@ func e2eIPCands(uri, hdrval, host string) []string {
 
 func e2eRun(o *Out, kind string, cfg eCfg, reqs []eReq) {
 	huge := 1000 * time.Hour
-	store, err := memory.New(memory.Config{ShardCount: 2, GarbageCollectionInterval: huge, PrometheusReportingInterval: huge, PeerLifetime: huge})
+	store, err := memory.New(memory.Config{ShardCount: 2, GarbageCollectionInterval: huge, PrometheusReportingInterval: huge, PeerLifetime: 5 * time.Minute})
 	if err != nil {
 		panic(err)
 	}
